@@ -114,6 +114,12 @@ CLAIMED = {
         text="Lean: char / check_char / any_char / str / one_of never panic and return a proper suffix; for every well-behaved argument parser and every input string take_while0 terminates within length+1 steps, does not panic, and `&input[..(input.len() - cur.len())]` is exactly the consumed prefix (a char boundary), likewise take_while1 and take_until1 (whose `until` only needs to be panic-free) — by induction over fuel with the suffix invariant and `byteLen (pre ++ cur) - byteLen cur = byteLen pre`; a character count used as a byte offset panics on U+3000 (example). no_unaccounted_site: the inventory of index / slice expressions, unwrap / expect, panic!-family macros, `-` `/` `%`, Punctuated::push_*, Ident::new, format_ident!, parse_quote! regenerated from impl/src on every run (175 sites: 13 proved, 20 deliberate diagnostics, 142 observed) has nothing beyond the accounted-for baseline. Tie: 12 named combinator instances of the real parser (hook) vs the Lean model on 4380 strings each (exhaustive up to length 3 over 1-4 byte characters, random up to 44). Search: 10.7 k expansions under catch_unwind with hang / abort bisection: every generated item of the other properties under its own and 4 random other derives, 16 odd item kinds x 50 derives (unions, empty enums, raw identifiers, discriminant extremes), 700 token-level attribute mutations, 6.6 k format literals (exhaustive up to length 2, random longer, 30-digit numbers, unbalanced braces, 1-4 byte characters); a panic is an internal failure unless it comes from a panic!/assert! site of the inventory with a message",
         note="partial: Lean kernel for the combinator model; inventory by translator; fuzzing is a search, not a proof",
         ref="DESIGN.md §4 C18"),
+    "C17": dict(
+        level="proof",
+        technique="Lean 4 theorems about a model of the legacy attribute parser (for every allow-list, parameter list and starting state) via a denotation into set-once atoms + differential run against the real get_meta_info through a guarded hook + tables of documented synonymous spellings and single-step corruptions run against the working-tree expansions (partial: the typed attribute parsers are decided by the tables only)",
+        text="Lean (legacy parser of the 20 State-configured derives, transcribed from parse_punctuated_nested_meta / get_meta_info): parseMetas equals applying the list of set-once atoms its parameters denote (parseMetas_eq, mutual induction); hence any permutation of the parameters gives the same MetaInfo or the same rejection (order_independent), a parameter outside the position's allow-list is rejected wherever it stands (unknown_rejected), a parameter given twice is rejected (repeated_rejected), a parameter and its not(..) negation are rejected in either order (contradiction_rejected), and a second attribute, the name-value form, an attribute where the allow-list is empty and the bare word where ignore is not allowed are rejected (attribute_forms_rejected). Tie: 6000 generated (allow-list, attribute list) inputs, model vs the real function. Typed attributes and fmt attributes: 39 hand-written + 226 generated pairs of documented alternative spellings (skip/ignore, bound/bounds, one attribute with several types vs several attributes in every order, trailing commas, order of independent attributes) must expand to the identical set of impls, and 73 single-step corruptions at documented positions (unknown, duplicated, conflicting, meaningless for the item kind, pre-1.0 syntax) must yield a diagnostic",
+        note="partial: Lean kernel for the legacy parser model; tables for the typed attributes",
+        ref="DESIGN.md §4 C17"),
 }
 
 NOT_APPLICABLE = {}
@@ -128,7 +134,7 @@ def main():
             "guard": "cargo feature jeltef_derive_more_verif (impl/Cargo.toml), cfg(feature = \"jeltef_derive_more_verif\")",
             "enable": "the harness crate /verif/harness/inproc includes /repo/impl/src/*.rs by #[path] and enables its own feature of the same name; scratch crates using the real proc-macro are built with the guard off",
             "baseline_off_cmd": "cd /repo && cargo test --workspace --no-fail-fast --offline",
-            "source_commits": ["33650de", "d9d3f1d", "8e51434"],
+            "source_commits": ["33650de", "d9d3f1d", "8e51434", "f6dbb76"],
             "add_only": True,
         },
         "engines": [
